@@ -97,6 +97,10 @@ type target struct {
 	nearLo, nearHi *big.Int // min+2^12, max-2^12: "near a boundary" for the non-triviality rule
 	minBits        uint64   // result bit patterns of the two clamps (signed results sign-extended to 64 bits)
 	maxBits        uint64
+	// the same bounds for the int64 shortcut of the reference (only used when the truncated value fits an int64;
+	// a bound above MaxInt64 is then never exceeded and is stored as MaxInt64)
+	loI, hiI, nearLoI, nearHiI int64
+	monoMask                   uint64 // 2^63 for signed targets: x^monoMask orders sign-extended results as unsigned numbers
 }
 
 var targets [nT]target
@@ -118,6 +122,16 @@ func mkTarget(name string, signed bool, bits int) target {
 	}
 	t.nearLo = new(big.Int).Add(t.min, big.NewInt(1<<12))
 	t.nearHi = new(big.Int).Sub(t.max, big.NewInt(1<<12))
+	clip := func(x *big.Int) int64 {
+		if x.IsInt64() {
+			return x.Int64()
+		}
+		return math.MaxInt64 // only maxima of the 64-bit unsigned targets get here
+	}
+	t.loI, t.hiI, t.nearLoI, t.nearHiI = clip(t.min), clip(t.max), clip(t.nearLo), clip(t.nearHi)
+	if signed {
+		t.monoMask = signBit
+	}
 	return t
 }
 
@@ -128,6 +142,9 @@ func init() {
 		mkTarget("int16", true, 16), mkTarget("uint16", false, 16),
 		mkTarget("int32", true, 32), mkTarget("uint32", false, 32),
 		mkTarget("int64", true, 64), mkTarget("uint64", false, 64),
+	}
+	for i := range targets {
+		monoMask[i] = targets[i].monoMask
 	}
 }
 
@@ -294,7 +311,12 @@ func init() {
 	mk[float64, MyF64]("float64", "MyF64", famF64, 64)
 }
 
-const nSrc = 24
+const (
+	nPair = 12
+	nSrc  = 2 * nPair
+)
+
+var monoMask [nT]uint64
 
 func srcByIdx(i int) srcInfo {
 	p := pairs[i/2]
@@ -362,6 +384,11 @@ type worker struct {
 	T big.Int
 	F big.Float
 
+	// fast: complete 2^32 sweeps. The clamp of a truncated value that fits an int64 is then done with int64
+	// comparisons only; everywhere else (all 8/16-bit values, every boundary neighbourhood) both clamps are computed
+	// and must agree, which is what justifies the shortcut.
+	fast bool
+
 	cur      uint64
 	havePrev bool
 	prevKey  uint64
@@ -372,12 +399,14 @@ type worker struct {
 	cls   [nT]uint8
 	nt    [nT]bool
 
-	evals, nontrivial, nanEvals int64
-	sum                         uint64
-	perSrc                      [nSrc]int64
-	classCnt                    [nSrc][nT][3]int64
-	viol                        [3][nSrc][nT][4]violRec
-	engineErrs                  []string
+	keys       [nPair]int64 // source values evaluated with the value oracle, per pair
+	nanKeys    [nPair]int64
+	ntTriples  int64 // (value, target) with the non-triviality rule true, per source type of the pair
+	crossCheck int64
+	sum        uint64
+	classCnt   [nPair][nT][3]int64
+	viol       [3][nSrc][nT][4]violRec
+	engineErrs []string
 }
 
 // exact puts the source value with its fraction dropped into w.T (math/big) and tells the kind of the value.
@@ -411,6 +440,23 @@ func (w *worker) exact(fam family, k uint64) int {
 
 // reference fills wantB / cls / nt for the ten targets from w.T.
 func (w *worker) reference(kind int) {
+	if kind == kindFinite && w.T.IsInt64() {
+		w.referenceInt64(w.T.Int64())
+		if !w.fast {
+			a, b, c := w.wantB, w.cls, w.nt
+			w.referenceBig(kind)
+			w.crossCheck++
+			if (a != w.wantB || b != w.cls || c != w.nt) && len(w.engineErrs) < 3 {
+				w.engineErrs = append(w.engineErrs, fmt.Sprintf("int64 shortcut of the reference disagrees with the math/big clamp for %s", w.T.String()))
+			}
+		}
+		return
+	}
+	w.referenceBig(kind)
+}
+
+// referenceBig: clamp with big.Int comparisons.
+func (w *worker) referenceBig(kind int) {
 	for t := 0; t < nT; t++ {
 		tg := &targets[t]
 		switch {
@@ -430,6 +476,22 @@ func (w *worker) reference(kind int) {
 	}
 }
 
+// referenceInt64: the same clamp for a truncated value x that fits an int64 (see target.loI …).
+func (w *worker) referenceInt64(x int64) {
+	for t := 0; t < nT; t++ {
+		tg := &targets[t]
+		switch {
+		case x > tg.hiI:
+			w.wantB[t], w.cls[t], w.nt[t] = tg.maxBits, clsAbove, true
+		case x < tg.loI:
+			w.wantB[t], w.cls[t], w.nt[t] = tg.minBits, clsBelow, true
+		default:
+			w.wantB[t], w.cls[t] = uint64(x), clsIn // sign-extended for signed targets; x >= 0 for unsigned ones
+			w.nt[t] = x < tg.nearLoI || x > tg.nearHiI
+		}
+	}
+}
+
 func (w *worker) record(clause, src, t, cls int, key, prevKey, got, want uint64, msg string) {
 	r := &w.viol[clause][src][t][cls]
 	r.n++
@@ -438,32 +500,40 @@ func (w *worker) record(clause, src, t, cls int, key, prevKey, got, want uint64,
 	}
 }
 
-func (w *worker) check(src int, k uint64, out, prev *[nT]uint64) {
-	w.evals += nT
-	w.perSrc[src] += nT
+// count books the key once for the pair (classes are a function of the value, not of the source type).
+func (w *worker) count(pi int) {
+	w.keys[pi]++
 	for t := 0; t < nT; t++ {
-		g := out[t]
-		w.sum += g + uint64(t)
-		c := int(w.cls[t])
-		if g != w.wantB[t] {
-			w.record(clValue, src, t, c, k, 0, g, w.wantB[t], "")
-		}
-		if w.havePrev {
-			var less bool
-			if targets[t].signed {
-				less = int64(g) < int64(prev[t])
-			} else {
-				less = g < prev[t]
-			}
-			if less {
-				w.record(clMono, src, t, c, k, w.prevKey, g, prev[t], "")
-			}
-		}
-		w.classCnt[src][t][c]++
+		w.classCnt[pi][t][w.cls[t]]++
 		if w.nt[t] {
-			w.nontrivial++
+			w.ntTriples++
 		}
 	}
+}
+
+func (w *worker) check(src int, k uint64, out, prev *[nT]uint64) {
+	if *out != w.wantB {
+		for t := 0; t < nT; t++ {
+			if out[t] != w.wantB[t] {
+				w.record(clValue, src, t, int(w.cls[t]), k, 0, out[t], w.wantB[t], "")
+			}
+		}
+	}
+	var sum uint64
+	if w.havePrev {
+		for t := 0; t < nT; t++ {
+			o := out[t]
+			sum += o
+			if o^monoMask[t] < prev[t]^monoMask[t] {
+				w.record(clMono, src, t, int(w.cls[t]), k, w.prevKey, o, prev[t], "")
+			}
+		}
+	} else {
+		for t := 0; t < nT; t++ {
+			sum += out[t]
+		}
+	}
+	w.sum += sum
 }
 
 // sweep evaluates the ascending run of keys lo..hi (inclusive) for the plain and the named type of a pair.
@@ -499,10 +569,11 @@ func sweepSeg[S, N safecast.IConvertable](w *worker, p *pair, lo, hi uint64) (ne
 		convAll(n, &outN)
 		if kind == kindNaN {
 			// only "does not panic"; no order relation with the neighbours
-			w.nanEvals += 2 * nT
+			w.nanKeys[p.idx]++
 			w.havePrev = false
 		} else {
 			w.reference(kind)
+			w.count(p.idx)
 			w.check(p.plain.idx, k, &outS, &w.prevS)
 			w.check(p.named.idx, k, &outN, &w.prevN)
 			w.prevS, w.prevN, w.prevKey, w.havePrev = outS, outN, k, true
@@ -720,6 +791,7 @@ func valueSet(p *pair, thorough bool) []ival {
 
 type task struct {
 	p        *pair
+	fast     bool   // part of a complete 2^32 sweep (see worker.fast)
 	ivals    []ival // ascending, disjoint
 	hasPrime bool
 	primeKey uint64
@@ -729,9 +801,9 @@ const chunk = uint64(1) << 22
 
 // makeTasks cuts the value set of a pair into tasks of about 2^22 keys. Every task but the first is primed with
 // the key that precedes it in the set, so that monotonicity is checked along the whole ascending sequence.
-func makeTasks(p *pair, set []ival) []task {
+func makeTasks(p *pair, set []ival, fast bool) []task {
 	var tasks []task
-	cur := task{p: p}
+	cur := task{p: p, fast: fast}
 	var n uint64
 	var last uint64
 	haveLast := false
@@ -739,7 +811,7 @@ func makeTasks(p *pair, set []ival) []task {
 		if len(cur.ivals) > 0 {
 			tasks = append(tasks, cur)
 		}
-		cur = task{p: p, hasPrime: haveLast, primeKey: last}
+		cur = task{p: p, fast: fast, hasPrime: haveLast, primeKey: last}
 		n = 0
 	}
 	for _, iv := range set {
@@ -768,6 +840,7 @@ func makeTasks(p *pair, set []ival) []task {
 
 func (w *worker) runTask(t task) {
 	w.havePrev = false
+	w.fast = t.fast
 	if t.hasPrime {
 		t.p.prime(w, t.primeKey)
 	}
@@ -861,13 +934,23 @@ func TestC10(t *testing.T) {
 	var tasks []task
 	setSizes := map[string]any{}
 	var totalKeys uint64
-	for _, p := range pairs {
-		set := valueSet(p, thorough)
+	sets := make([][]ival, len(pairs))
+	var swg sync.WaitGroup
+	for i, p := range pairs {
+		swg.Add(1)
+		go func() {
+			defer swg.Done()
+			sets[i] = valueSet(p, thorough)
+		}()
+	}
+	swg.Wait()
+	for i, p := range pairs {
+		set := sets[i]
 		n := ivalCount(set)
 		totalKeys += n
 		complete := len(set) == 1 && set[0].lo == p.loKey && set[0].hi == p.hiKey
 		setSizes[p.plain.name+"|"+p.named.name] = map[string]any{"values": n, "ascending_runs": len(set), "every_value_of_the_type": complete}
-		tasks = append(tasks, makeTasks(p, set)...)
+		tasks = append(tasks, makeTasks(p, set, complete && p.bits == 32)...)
 	}
 	// largest tasks first is irrelevant for the result (sums), it only balances the pool
 	nw := runtime.NumCPU()
@@ -897,7 +980,7 @@ func TestC10(t *testing.T) {
 	wg.Wait()
 
 	// merge
-	var evals, nontrivial, nanEvals int64
+	var evals, nontrivial, nanEvals, crossChecked int64
 	var sum uint64
 	var perSrc [nSrc]int64
 	var classCnt [nSrc][nT][3]int64
@@ -909,18 +992,21 @@ func TestC10(t *testing.T) {
 	}
 	viol := map[string]*agg{}
 	for _, w := range ws {
-		evals += w.evals
-		nontrivial += w.nontrivial
-		nanEvals += w.nanEvals
+		nontrivial += 2 * w.ntTriples // the plain and the named type are two source types
+		crossChecked += w.crossCheck
 		sum += w.sum
 		for _, e := range w.engineErrs {
 			rep.EngineError("%s", e)
 		}
-		for s := 0; s < nSrc; s++ {
-			perSrc[s] += w.perSrc[s]
-			for tg := 0; tg < nT; tg++ {
-				for c := 0; c < 3; c++ {
-					classCnt[s][tg][c] += w.classCnt[s][tg][c]
+		for pi := 0; pi < nPair; pi++ {
+			evals += 2 * nT * w.keys[pi]
+			nanEvals += 2 * nT * w.nanKeys[pi]
+			for _, s := range []int{2 * pi, 2*pi + 1} {
+				perSrc[s] += nT * (w.keys[pi] + w.nanKeys[pi])
+				for tg := 0; tg < nT; tg++ {
+					for c := 0; c < 3; c++ {
+						classCnt[s][tg][c] += w.classCnt[pi][tg][c]
+					}
 				}
 			}
 		}
@@ -986,6 +1072,7 @@ func TestC10(t *testing.T) {
 	rep.Coverage["evaluations_per_source_type"] = perSource
 	rep.Coverage["expected_outcome_per_target"] = outcomes
 	rep.Coverage["distinct_outcome_classes_observed"] = fmt.Sprintf("%d of the (source type, target, {clamped-to-min, in-range, clamped-to-max}) combinations occurred", distinctOutcomeClasses)
+	rep.Coverage["reference_cross_checked_values"] = fmt.Sprintf("%d source values had the math/big clamp and its int64 shortcut (used alone in the complete 2^32 sweeps, for truncated values that fit an int64) computed side by side; they agreed on all of them", crossChecked)
 	rep.Coverage["results_sum64"] = fmt.Sprintf("%#016x", sum)
 	rep.Coverage["workers"] = nw
 	rep.Coverage["bound"] = map[string]any{
@@ -995,7 +1082,7 @@ func TestC10(t *testing.T) {
 	}
 	rep.Coverage["samples"] = samples()
 	rep.Assume = []string{
-		"reference: math/big (big.Float.SetFloat64 is exact, big.Float.Int truncates toward zero, big.Int.Cmp clamps)",
+		"reference: math/big (big.Float.SetFloat64 is exact, big.Float.Int truncates toward zero, big.Int.Cmp clamps); in the complete 2^32 sweeps the clamp of a truncated value that fits an int64 uses int64 comparisons, cross-checked against the big.Int clamp on every value of every other set",
 		"int and uint are 64 bits wide on the platform of the run",
 		"NaN: only 'does not panic' is asserted",
 		"one defined type per kind stands for 'named types over them'",
